@@ -102,6 +102,33 @@ type builder struct {
 	withIntr bool
 	store    compose.CheckPointStore
 	paths    map[int]string // graph index -> path of the graph node holding it ("" = top)
+	// the two slices of Case.Lists: created once per build, the same objects for every graph that shares them
+	shBefore, shAfter []string
+	shMade            bool
+}
+
+// sharedLists returns the one []string per kind handed to every graph listed in Case.Lists.
+func (b *builder) sharedLists() (before, after []string) {
+	if !b.shMade {
+		b.shMade = true
+		b.shBefore = keys(b.c.Lists.Before)
+		b.shAfter = keys(b.c.Lists.After)
+	}
+	return b.shBefore, b.shAfter
+}
+
+// listNote: what became of the caller's lists (Compile has no business writing to them).
+func (b *builder) listNote() string {
+	if !b.shMade {
+		return ""
+	}
+	if fmt.Sprint(b.shBefore) != fmt.Sprint(keys(b.c.Lists.Before)) {
+		return fmt.Sprintf("the caller's interrupt-before list %v reads %v after Compile", keys(b.c.Lists.Before), b.shBefore)
+	}
+	if fmt.Sprint(b.shAfter) != fmt.Sprint(keys(b.c.Lists.After)) {
+		return fmt.Sprintf("the caller's interrupt-after list %v reads %v after Compile", keys(b.c.Lists.After), b.shAfter)
+	}
+	return ""
 }
 
 // sharesTopState: graph gi declares no state, every graph between it and the top level declares none
@@ -266,11 +293,22 @@ func (b *builder) compileOpts(gi int) []compose.GraphCompileOption {
 		opts = append(opts, compose.WithMaxRunSteps(g.MaxSteps))
 	}
 	if b.withIntr {
-		if len(g.Before) > 0 {
-			opts = append(opts, compose.WithInterruptBeforeNodes(keys(g.Before)))
-		}
-		if len(g.After) > 0 {
-			opts = append(opts, compose.WithInterruptAfterNodes(keys(g.After)))
+		if b.c.sharesLists(gi) {
+			// the application's one list per kind: the same slice object for every graph
+			before, after := b.sharedLists()
+			if len(before) > 0 {
+				opts = append(opts, compose.WithInterruptBeforeNodes(before))
+			}
+			if len(after) > 0 {
+				opts = append(opts, compose.WithInterruptAfterNodes(after))
+			}
+		} else {
+			if len(g.Before) > 0 {
+				opts = append(opts, compose.WithInterruptBeforeNodes(keys(g.Before)))
+			}
+			if len(g.After) > 0 {
+				opts = append(opts, compose.WithInterruptAfterNodes(keys(g.After)))
+			}
 		}
 	}
 	if gi == 0 && b.store != nil {
